@@ -18,6 +18,10 @@ import time
 
 VERIF = os.path.dirname(os.path.dirname(os.path.abspath(__file__)))
 REPO = os.environ.get("VERIF_REPO", "/repo")
+ALT = REPO != "/repo"
+# a scratch repository gets private build/run/evidence directories, keyed by its path, so that several scratch runs can
+# go on side by side and never touch the evidence of /repo
+ALTTAG = ("alt-" + __import__("hashlib").sha1(REPO.encode()).hexdigest()[:8]) if ALT else ""
 COQ = os.path.join(VERIF, "coq")
 BUILD = os.path.join(VERIF, "build")
 RUN = os.path.join(VERIF, "run")
@@ -64,7 +68,7 @@ def prepare_go_dir(name):
     if REPO == "/repo":
         subprocess.run(["cp", os.path.join(REPO, "go.sum"), os.path.join(src, "go.sum")])
         return src
-    dst = os.path.join(BUILD, "alt-" + name)
+    dst = os.path.join(BUILD, ALTTAG + "-" + name)
     subprocess.run(["rsync", "-a", "--delete", src + "/", dst + "/"])
     gm = open(os.path.join(dst, "go.mod")).read().replace("=> /repo", "=> " + REPO)
     open(os.path.join(dst, "go.mod"), "w").write(gm)
@@ -76,7 +80,7 @@ def regen_facts(log, repo=None):
     """T1: rebuild the translator and regenerate coq/Gen/Facts*.v from the repository. Returns (ok, message)."""
     repo = repo or REPO
     tdir = prepare_go_dir("translator")
-    binp = os.path.join(BUILD, "srcfacts" if REPO == "/repo" else "srcfacts-alt")
+    binp = os.path.join(BUILD, "srcfacts" if not ALT else ALTTAG + "-srcfacts")
     rc, out, _ = sh(["go", "build", "-o", binp, "."], cwd=tdir, timeout=600, env=GOENV)
     if rc != 0:
         log.append("translator build failed:\n" + out)
@@ -168,7 +172,7 @@ def props_report(pid, log):
 
 def build_harness(pid, log):
     hdir = prepare_go_dir("harness")
-    binp = os.path.join(BUILD, "harness-" + pid + ("" if REPO == "/repo" else "-alt"))
+    binp = os.path.join(BUILD, ("" if not ALT else ALTTAG + "-") + "harness-" + pid)
     rc, out, dt = sh(["go", "build", "-tags", "verif", "-o", binp, "./cmd/" + pid.lower()],
                      cwd=hdir, timeout=1200, env=GOENV)
     log.append("go build harness rc=%d %.1fs" % (rc, dt))
@@ -181,7 +185,7 @@ def run_harness(pid, tier, seed, outdir, log, timeout, extra=None):
         p = os.path.join(outdir, fn)
         if os.path.exists(p):
             os.remove(p)
-    binp = os.path.join(BUILD, "harness-" + pid + ("" if REPO == "/repo" else "-alt"))
+    binp = os.path.join(BUILD, ("" if not ALT else ALTTAG + "-") + "harness-" + pid)
     cmd = [binp, "-out", outdir, "-seed", str(seed), "-tier", tier] + (extra or [])
     rc, out, dt = sh(cmd, cwd=VERIF, timeout=timeout, env=GOENV)
     log.append("harness %s rc=%d %.1fs" % (pid, rc, dt))
@@ -255,8 +259,9 @@ def write_replay(pid, payload):
 
 
 def write_evidence(pid, ev):
-    os.makedirs(os.path.join(VERIF, "evidence"), exist_ok=True)
-    with open(os.path.join(VERIF, "evidence", pid + ".json"), "w") as f:
+    evdir = os.path.join(VERIF, "evidence") if not ALT else os.path.join(RUN, ALTTAG + "-evidence")
+    os.makedirs(evdir, exist_ok=True)
+    with open(os.path.join(evdir, pid + ".json"), "w") as f:
         json.dump(ev, f, indent=1, default=str)
 
 
@@ -268,7 +273,7 @@ def check(pid, tier, cfg, replay=None):
     known_lines = []
     notes = []
     known = load_known()
-    outdir = os.path.join(RUN, pid)
+    outdir = os.path.join(RUN, pid if not ALT else ALTTAG + "-" + pid)
     proof_ok = True
     proof_msg = ""
     theorems, closed, axioms, passum = [], 0, [], ""
@@ -283,7 +288,7 @@ def check(pid, tier, cfg, replay=None):
     if alt:
         # a scratch repository: work on a private copy of the Coq tree so that the generated facts of the scratch
         # repository never touch /verif/coq and no lock is held while the harness and the model run
-        altcoq = os.path.join(BUILD, "alt-coq-" + pid)
+        altcoq = os.path.join(BUILD, ALTTAG + "-coq-" + pid)
         with Lock():
             subprocess.run(["rsync", "-a", "--delete", os.path.join(VERIF, "coq") + "/", altcoq + "/"])
         COQ = altcoq
@@ -475,7 +480,15 @@ def main():
     sys.path.insert(0, os.path.join(VERIF, "lib"))
     cp = os.path.join(VERIF, "lib", "cfg", pid + ".json")
     cfg = json.load(open(cp)) if os.path.exists(cp) else {}
-    sys.exit(check(pid, tier, cfg, replay))
+    rc = check(pid, tier, cfg, replay)
+    if ALT and not os.environ.get("VERIF_ALT_KEEP"):
+        import glob, shutil
+        for d in glob.glob(os.path.join(BUILD, ALTTAG + "-*")) + glob.glob(os.path.join(RUN, ALTTAG + "-*")):
+            if os.path.isdir(d):
+                shutil.rmtree(d, ignore_errors=True)
+            else:
+                os.remove(d)
+    sys.exit(rc)
 
 
 if __name__ == "__main__":
